@@ -16,7 +16,7 @@ from fdsim import specgen
 PROPERTY = "C26"
 LEVEL = "exploration"
 RUNS = {"quick": 600, "thorough": 8000}
-SHRINK_BUDGET = {"quick": 400, "thorough": 1200}
+SHRINK_BUDGET = {"quick": 250, "thorough": 1200}
 RUN_TIMEOUT_S = 300
 RULE = (
     "one run = one seeded constraint system: volume 3-12 cells per axis on a uniform grid (65%) or an explicit non-uniform "
